@@ -106,9 +106,34 @@ func (p *Program) verifyFunc(name string, view string) *FuncResult {
 		e.cover(name+":vacuity:requires-satisfiable", ct.Props, "true")
 	}
 	f.useLemmas("true", st)
+	// C19: a function on the shared-reader read path may not name shared reader state in its frame
+	if ct != nil && hasProp(ct.Props, "C19") && ct.HasMod && e.primary() {
+		for h := range f.frameTargets() {
+			for _, pre := range []string{"F_Reader_", "F_Merged_", "F_blockReader_", "F_fileBlockSource_", "F_ByteBlockSource_", "G_", "F_header_", "F_footer_"} {
+				if strings.HasPrefix(h, pre) {
+					e.oblige("frame", fmt.Sprintf("%s:race:modifies-shared-state:%s", name, h), []string{"C19"}, "true", "false", p.pos(fn.Pos()), "the modifies clause of a read-path function names shared reader state")
+				}
+			}
+		}
+	}
 	results, exit, retGuard := f.run("true", st, args)
 	_ = results
 	if exit != nil && ct != nil {
+		// ghost assignments at return ("sets")
+		for _, sc := range ct.Sets {
+			for _, r := range f.rets {
+				e.curBlock = r.block
+				env := &specEnv{f: f, st: r.state, old: f.entry, results: r.results}
+				sortS := p.ghostSort(sc.Ghost)
+				nv := f.specTerm(sc.Expr, env)
+				prev := e.getHeap(r.state, "ghost_"+sc.Ghost, sortS)
+				val := nv.T
+				if sc.Cond != nil {
+					val = ite(f.specBool(sc.Cond, env), nv.T, prev)
+				}
+				e.setHeap(r.state, "ghost_"+sc.Ghost, sortS, val)
+			}
+		}
 		// each postcondition is checked separately at every return site (no merged exit state in the VC)
 		for _, en := range ct.Ensures {
 			if !e.inView(en) || (en.View == "" && !e.primary()) {
